@@ -273,6 +273,25 @@ def run_property(pid, tier, seed, relock=False, verbose=False):
             except Exception as e:       # noqa: BLE001
                 lean = False
                 print('NOTE lean re-check could not run: %r' % (e,))
+    conformance = None
+    if tier == 'thorough' and obligations:
+        # A-NUMPY hygiene: the model rules replayed against the installed numpy on concrete inputs (cached for an hour)
+        stamp = os.path.join(HERE, 'out', 'conformance.json')
+        try:
+            if os.path.exists(stamp) and time.time() - os.path.getmtime(stamp) < 3600:
+                conformance = json.load(open(stamp))
+            else:
+                pr = subprocess.run(['python3-vt', '-m', 'vk.conformance'], capture_output=True, text=True, timeout=1500, cwd=HERE,
+                                    env=dict(os.environ, PYTHONPATH=HERE))
+                conformance = last_json(pr.stdout)
+                if conformance is not None:
+                    conformance.pop('problems', None) if not conformance.get('disagree') else None
+                    os.makedirs(os.path.dirname(stamp), exist_ok=True)
+                    json.dump(conformance, open(stamp, 'w'))
+            if conformance and (conformance.get('disagree') or conformance.get('undetermined')):
+                print('CHECKER-ERROR numpy model rules disagree with the installed numpy: %s' % json.dumps(conformance)[:400])
+        except Exception as e:       # noqa: BLE001
+            print('NOTE model conformance run failed: %r' % (e,))
     wall = time.time() - t0
     level = P['level']
     n_obl, n_dis = len(proof_obls), len(discharged)
@@ -286,6 +305,7 @@ def run_property(pid, tier, seed, relock=False, verbose=False):
             'by_backend': by_backend, 'solver_time_s': round(solver_time, 2),
             'vacuity': {'guards': len(guards), 'guards_ok': len(guards) - len(vacuous)},
             'lean_lemmas_rechecked_this_run': lean,
+            'numpy_model_conformance': conformance,
             'not_discharged': [{'id': o.id, 'verdict': r.verdict} for o, r in failed],
             'degraded': [{'function': q, 'reason': why} for q, why in degraded],
             'lock_missing': missing[:20],
